@@ -56,6 +56,7 @@ pub enum SoupKind {
 pub fn guard_soup(rng: &mut Rng) -> Vec<u8> {
     const CTX: &[&str] = &[
         "<select>", "<select>", "</select>", "<template>", "</template>", "<option>", "<optgroup>", "<input>", "<keygen>", "<textarea>", "</textarea>", "<script>", "</script>",
+        "<template><template>", "</template></template>", "<select><template>", "</template></select>",
         "<frameset>", "</frameset>", "<frame>", "<table>", "<td>", "<tr>", "</table>", "<caption>", "<hr>", "<SELECT>", "<Template>", "</SELECT>", "<body>", "<p>", "<div>", "</div>",
     ];
     const PAYLOAD: &[&str] = &["<b>x</b>", "<i>", "t", "<!--c-->", "</b>", "<a href=x>"];
